@@ -19,9 +19,11 @@ type PathElem struct {
 
 // Ptr points into an object: either along a path of a cells object, or at a byte offset of a bytes object.
 type Ptr struct {
-	Obj  *Object // nil = nil pointer
-	Path []PathElem
-	Off  *Term // bytes objects: byte offset
+	Obj   *Object // nil = nil pointer
+	Path  []PathElem
+	Off   *Term      // bytes objects: byte offset
+	ElemT types.Type // static element type remembered across a conversion to unsafe.Pointer
+	View  types.Type // set when the pointer was re-typed through unsafe.Pointer: loads/stores convert by scalar leaves
 }
 
 type Object struct {
@@ -314,21 +316,36 @@ func getAt(v Value, path []PathElem) Value {
 			v = tv[c]
 			continue
 		}
-		// symbolic element index: ite chain over elements (bounds obligation was checked by the caller)
+		// symbolic element index (bounds obligation was checked by the caller): a balanced
+		// decision tree over runs of identical elements
 		rest := path[k+1:]
-		var acc Value
-		for i := len(tv) - 1; i >= 0; i-- {
-			x := getAt(tv[i], rest)
-			if acc == nil {
-				acc = x
-			} else {
-				acc = iteValue(Eq(e.T, BV(64, uint64(i))), x, acc)
-			}
-		}
-		if acc == nil {
+		if len(tv) == 0 {
 			panic(unsupported("symbolic index into empty array"))
 		}
-		return acc
+		type run struct {
+			end int // exclusive
+			v   Value
+		}
+		var runs []run
+		for i := range tv {
+			x := getAt(tv[i], rest)
+			if n := len(runs); n > 0 {
+				if t, ok := x.(*Term); ok && runs[n-1].v == Value(t) {
+					runs[n-1].end = i + 1
+					continue
+				}
+			}
+			runs = append(runs, run{i + 1, x})
+		}
+		var build func(lo, hi int) Value
+		build = func(lo, hi int) Value {
+			if hi-lo == 1 {
+				return runs[lo].v
+			}
+			mid := (lo + hi) / 2
+			return iteValue(Ult(e.T, BV(64, uint64(runs[mid-1].end))), build(lo, mid), build(mid, hi))
+		}
+		return build(0, len(runs))
 	}
 	return v
 }
@@ -365,4 +382,47 @@ func (p *Ptr) String() string {
 		return "nil"
 	}
 	return fmt.Sprintf("&obj%d(%s)%v", p.Obj.ID, p.Obj.Name, p.Path)
+}
+
+// flatten lists the scalar leaves of a value in memory order.
+func flatten(v Value, out *[]Value) {
+	if tv, ok := v.(TupleV); ok {
+		for _, e := range tv {
+			flatten(e, out)
+		}
+		return
+	}
+	*out = append(*out, v)
+}
+
+// unflatten rebuilds a value shaped like template from leaves (consumed in order).
+func unflatten(template Value, leaves *[]Value) Value {
+	if tv, ok := template.(TupleV); ok {
+		out := make(TupleV, len(tv))
+		for i, e := range tv {
+			out[i] = unflatten(e, leaves)
+		}
+		return out
+	}
+	if len(*leaves) == 0 {
+		panic(unsupported("unsafe view: not enough leaves"))
+	}
+	l := (*leaves)[0]
+	*leaves = (*leaves)[1:]
+	if a, ok := template.(*Term); ok {
+		b, ok := l.(*Term)
+		if !ok || a.W != b.W {
+			panic(unsupported("unsafe view: scalar leaf kinds differ"))
+		}
+		return b
+	}
+	switch template.(type) {
+	case *Ptr:
+		switch l.(type) {
+		case *Ptr:
+			return l
+		}
+		panic(unsupported(fmt.Sprintf("unsafe view: leaf %T where a pointer is expected", l)))
+	}
+	panic(unsupported(fmt.Sprintf("unsafe view: leaf kind %T", template)))
 }
